@@ -289,6 +289,20 @@ def run(ctx):
         cli_runs += 1
         if rc != 0 or tree_digest(d, set()) != before or not os.path.exists(cp):
             viol.append({'property': 'C20', 'kind': 'cli-copy', 'rc': rc, 'stderr': err.decode(errors='replace')[-200:], 'witness': {'rows': rows}})
+            continue
+        # the error path: --copy onto a ruleset that already exists (the copy just made, then the source itself).  Whatever the program
+        # reports, nothing on disk may change: neither the source nor the existing target
+        copy_before = tree_digest(cp, set())
+        for target in (name + 'c', name):
+            out, err, rc = common.run_cli('edit_rules.py', ['-r', name, '--copy', target, '--max_length', '6'], stdin='devnull')
+            cli_runs += 1
+            src_now = tree_digest(d, set()) if os.path.isdir(d) else None
+            cp_now = tree_digest(cp, set()) if os.path.isdir(cp) else None
+            if src_now != before or cp_now != copy_before:
+                viol.append({'property': 'C20', 'kind': 'cli-copy-onto-existing-changed-disk', 'copy_target': 'the source itself' if target == name else 'an existing ruleset',
+                             'source_present': src_now is not None, 'target_present': cp_now is not None, 'rc': rc,
+                             'witness': {'rows': rows, 'copy_onto_existing': True}})
+                break
     cases += cli_runs
     if ctx.driver_ok:
         out = common.run_driver(ops)
